@@ -1453,6 +1453,10 @@ func (n RangeNumber) Compare(v val.Value) (int64, error) {
 			return 0, nil
 		default:
 			if i, ok := v.(val.Int64able); ok {
+				if n.unsigned != nil {
+					// a bound beyond the int64 range is above every such value
+					return 1, nil
+				}
 				a := n.getInt64()
 				b := i.Int64()
 				if a < b {
